@@ -99,6 +99,20 @@ def shadow_line(ops):
     return "ok " + ";".join(out)
 
 
+def lines_privenc(rng, n):
+    """encrypt sequences on one key object: (alg, key, boots, time, count, ctx engine id, request)"""
+    out = []
+    for _ in range(n):
+        alg = rng.choice([1, 2])
+        key = bytes(rng.getrandbits(8) for _ in range(16))
+        eng = bytes(rng.getrandbits(8) for _ in range(rng.choice([0, 5, 9, 12, 17, 32])))
+        oids = [bytes([43, 6] + [rng.getrandbits(7) for _ in range(rng.randrange(0, 40))]) for _ in range(rng.randrange(0, 4))]
+        req = f"get {rng.getrandbits(31)} " + (",".join(o.hex() for o in oids) if oids else "-")
+        out.append(f"privenc {alg} {key.hex()} {rng.getrandbits(32)} {rng.getrandbits(32)} {rng.randrange(1, 4)} "
+                   f"{gens.hx(eng)} {req}")
+    return out
+
+
 def run(chk, model_ok=True):
     rng = random.Random(chk.seed)
     quick = chk.tier == "quick"
@@ -109,7 +123,10 @@ def run(chk, model_ok=True):
     st.add("encmsg", gens.lines_encmsg(rng, n))
     st.add("encpdu", gens.lines_encpdu(rng, n // 2))
     st.add("encoid", gens.lines_encoid(rng, n // 2))
+    st.add("privenc", lines_privenc(rng, n // 8))
     st.run()
+    import ossl
+    import usm
     bad = 0
 
     def fail(ln, out, why):
@@ -154,6 +171,28 @@ def run(chk, model_ok=True):
                 sizes["exact_cap"] += len(msg) == cap()
                 if out != "ok " + msg.hex():
                     fail(ln, out, f"request of {len(msg)} octets fits but the datagram is not the complete minimal encoding")
+        elif parts[0] == "privenc" and out.startswith("ok "):
+            alg, key = parts[1], bytes.fromhex(parts[2])
+            boots, time_ = int(parts[3]), int(parts[4])
+            for pair in out[3:].split(";"):
+                ct, salt = (bytes.fromhex(x) for x in pair.split("/"))
+                if alg == "1":
+                    k8, iv = usm.des_params(key, salt)
+                    pt = ossl.des_cbc_decrypt(k8, iv, ct)
+                    block = 8
+                else:
+                    pt = ossl.aes128_cfb_decrypt(key, usm.aes_iv(boots, time_, salt), ct)
+                    block = 16
+                try:
+                    tag, content, end, _ = ber.parse_tlv(pt, 0)
+                except ber.BerError as e:
+                    fail(ln, out, f"encrypted payload does not decrypt to a scoped PDU ({e})")
+                    break
+                pad = pt[end:]
+                if len(pad) >= block or any(pad):
+                    fail(ln, out, f"bytes after the scoped PDU are not < one block of zero padding: {pad.hex()} "
+                                  "(never-written or stale buffer octets were exposed)")
+                    break
         elif out == "PANIC":
             fail(ln, out, "encoder panicked")
     st.diff("C17 buffer / encoders")
